@@ -450,6 +450,7 @@ def binop(I, fr, op, l, r, node):
             and kind != K_SCALAR and any(_amplitude_int(I, x) for x in (l, r)):
         I.emit("int-arith", fr, node, op=type(op).__name__, left=l, right=r)
     ext = None
+    span_tag = frozenset()
     if isinstance(op, (ast.Mult, ast.Div)):
         if l.ext is not None and r.sign == S_POS and rscalar and r.ext is None:
             ext = (l.ext[0], l.ext[1], l.ext[2:] + (("*" if isinstance(op, ast.Mult) else "/") + "|".join(sorted(r.tags)),))
@@ -458,6 +459,7 @@ def binop(I, fr, op, l, r, node):
     elif isinstance(op, ast.Sub) and l.ext is not None and r.ext is not None and l.ext[1:] == r.ext[1:]:
         if l.ext[0] == "hi" and r.ext[0] == "lo":
             sign = S_NONNEG
+            span_tag = frozenset(["span:hi-lo"])        # (last - first) of one ascending array: an extent
         elif l.ext[0] == "lo" and r.ext[0] == "hi":
             sign = S_NONPOS
     if sym is not None and kind != K_SCALAR:
@@ -467,7 +469,7 @@ def binop(I, fr, op, l, r, node):
             if at_ in sym.atoms() and sym + LinExpr(at_) == n_ - 1:
                 ext = ("hi", key_)            # len(mask) - 1 - argmax(mask reversed): the last True position
     return AV(kind=kind, dtype=dtype, origin=origin, shape=shape, sym=sym, alg=alg, sign=sign, mono=mono,
-              const=c, expo=expo, tags=tags_of(l, r) | (frozenset(["div:true"]) if (isinstance(op, ast.Div) and kind == K_SCALAR) else frozenset()),
+              const=c, expo=expo, tags=tags_of(l, r) | span_tag | (frozenset(["div:true"]) if (isinstance(op, ast.Div) and kind == K_SCALAR) else frozenset()),
               indef=indef_of(l, r), f0=f0, ext=ext, parts=_ap_binop(op, l, r),
               note=pwnote if (pwnote is not None and c is _NOCONST) else
               ("integral" if (isinstance(op, (ast.Add, ast.Sub, ast.Mult)) and kind == K_SCALAR and
